@@ -538,6 +538,23 @@ def run_trace(repo, policy, actions_or_rng, max_steps=14, nmax=6, retain=False,
         # at every iteration - whatever the group accepts must be finished when join returns
         if micro_rng is not None and im.join_state in ('active', 'cancelled') and not im.g.joined:
             snap['micro'] = im.micro_drain(micro_rng)
+        # second-join probe (oracle only, not part of the model trace - the model has one joiner):
+        # while the first join()/__aexit__ is still under way, or after it was cut short by a
+        # cancellation, ANOTHER task calls group.join().  That call is a join like any other: when
+        # it finishes, every task ever placed in the group must have finished (it may of course
+        # stay blocked as long as a member is slow to die).
+        elif im.join_state is not None and any(not t.done() for t in im.task.values()):
+            async def second():
+                await im.g.join()
+            t2 = im.loop.create_task(second())
+            im.idle()
+            snap['second_join'] = {
+                'finished': t2.done(),
+                'alive': sorted(i for i, t in im.task.items() if not t.done()),
+                'first_join': im.join_state,
+                'first_done': im.joiner.done() if im.joiner else None}
+            if t2.done() and not t2.cancelled():
+                t2.exception()
         # "nothing can be added afterwards"
         if im.g.joined:
             snap['add_after_join'] = 'refused'
